@@ -171,29 +171,27 @@ CLAIMED['C17'] = dict(
     note=SERVER_NOTE + 'A schedule is a total order of chunk deliveries; preemption inside one processIncomingPacket call (threaded server) is not modelled.')
 
 CLAIMED['C15'] = dict(
-    text='Kernel-checked, for ANY number of threads, ANY number of transactions per thread and ANY schedule (pre-emption before every '
-         'operation: the check and the completion of the unlocked connect, acquire, tid++, connect, each of the two writes of a frame, '
-         'every poll, each recv, process, release), with the lock discipline a parameter of the model. Under one re-entrant lock around '
-         'the whole transaction, for every client: mutual_exclusion (at most one thread between its send and the end of its receive in '
-         'every reachable state), frames_contiguous, results_in_request_order / finished_one_result_each (no result lost or '
-         'duplicated), no_deadlock (some thread can always move), every_move_is_progress, fair_schedule_finishes (k rounds each giving '
-         'every thread a turn, k >= total operations: every thread finishes), reentrant_acquire_never_blocks; for a client connected '
-         'before the threads start: own_reply_partial / finished_all_served_partial / C15_partial (every caller gets the reply built '
-         'for its own request: its transaction id, unit and data). By induction over the schedule with the invariant "lock holder = the '
-         'only thread inside a transaction and the transport is exactly where that transaction left it". generated_lock_scope (the '
-         'source, read by ast on every run, has that discipline). PARTIAL: C15_full is FALSE - connect_race_counterexample / '
-         'C15_full_counterexample (connect() outside the lock on a client that is not connected yet loses a reply; known finding '
-         'connect-outside-lock, reproduced on the real ModbusTcpClient on every run). Counterexamples none/perKey/perKey_swap/'
-         'sendOnly_counterexample (no lock, one lock per unit id, send-only lock do not serialise). Real threads on the real '
-         'ModbusTcpClient (in-memory socket/select/time) run under a deterministic cooperative scheduler for all schedules of 2 threads '
-         'x 1..2 transactions (DFS) plus random / sleep-set DFS schedules of up to 4 threads x 3 transactions, each run checked against '
+    text='Kernel-checked, for ANY number of threads, ANY number of transactions per thread, ANY schedule (pre-emption before every '
+         'operation: client-lock acquire, connect check, connect open, manager-lock acquire, tid++, connect, each of the two writes of '
+         'a frame, every poll, each recv, process, both releases) and a client that is connected OR NOT when the threads start, with '
+         'the lock discipline a parameter of the model. Under the shipped discipline (client lock around connect + transaction, manager '
+         'lock nested): C15_full (mutual_exclusion: at most one thread between its send and the end of its receive in every reachable '
+         'state; frames_contiguous; own_reply: every caller gets the reply built for its own request - its transaction id, unit and '
+         'data), results_in_request_order / finished_all_served (nothing lost, duplicated or swapped), connection_never_replaced, '
+         'no_deadlock, every_move_is_progress, fair_schedule_finishes (k rounds each giving every thread a turn, k >= total operations: '
+         'every thread finishes served), reentrant_acquire_never_blocks; by induction over the schedule with the invariant "holder of the '
+         'client lock = the only thread inside execute and the transport is exactly where its transaction left it". '
+         'generated_lock_scope: the source, read by ast on every run, has that discipline at both lock sites (transaction.py and '
+         'client/sync.py). Named mutants that do not serialise: connect_race_counterexample / connectOutside_not_serialised (the code '
+         'before the repair of connect-outside-lock), none / perKey / perKey_swap / sendOnly counterexamples. Real threads on the real '
+         'ModbusTcpClient (in-memory socket/select/time, both locks instrumented from outside) run under a deterministic cooperative '
+         'scheduler for all schedules of 2..4 threads x 1..3 transactions (DFS, capped) plus random schedules, each run checked against '
          'the property directly and against the model.',
     design='6/C15', technique='Lean 4 invariant proof over schedules of a lock-parametric thread model + systematic schedule enumeration of the real code',
-    note='Partial: (1) the own-reply part holds only for a client connected before the threads start (defect of the code, see '
-         'known_findings.json connect-outside-lock); (2) pre-emption is modelled at the yield points (every transport operation, every '
-         'poll, lock acquire/release, and in the model also between any two operations of the transaction); pre-emption inside a '
-         'Python bytecode sequence and GIL effects are not exhibited. The lock is observed from outside by replacing '
-         'manager._transaction_lock with an instrumented wrapper around whatever object the manager created.')
+    note='Partial only in the sense of the design: pre-emption is exhibited at the yield points (every transport operation, every poll, '
+         'lock acquire/release; the model allows it between any two operations); pre-emption inside a Python bytecode sequence and '
+         'GIL effects are not exhibited. The locks are observed from outside by replacing manager._transaction_lock and '
+         'client._connect_lock with instrumented wrappers around whatever objects the code created. Fixed finding: connect-outside-lock.')
 
 PENDING_REASON = 'check not built yet in this revision (work in progress; planned per DESIGN.md section 6)'
 
